@@ -1107,14 +1107,22 @@ class Dict(Mapping, dict):
         """
         fields = set(self.field_schema_mapping)
         attributes = fields.copy()
+        renamed = {}
         if rename:
             rename = list(to_pairs(rename))
+            renamed = dict(rename)
+            # an attribute maps to the field it is renamed to, else to the
+            # field of its own name
+            attributes.difference_update(renamed)
             attributes.update(
-                [key for key, value in dict(rename).items() if value in fields]
+                [key for key, value in renamed.items() if value in fields]
             )
         if omit:
             omit = list(omit)
-            attributes.difference_update(omit)
+            # renamed attributes are included regardless of omit
+            attributes.difference_update(
+                [key for key in omit if key not in renamed]
+            )
 
         possible = (
             (attr, getattr(obj, attr))
